@@ -114,7 +114,8 @@ def _ob_s1(n_extra, recv_kind):
         exp = []
         I.check('fees_never_exceed_share', smt.And(f_sw * E18 <= gross * s, f_pr * E18 <= gross * p, f_bu * E18 <= gross * bu))
         I.outcome('msgs:' + ','.join(kinds))
-        I.check('only_bank_messages', all(k in ('send', 'burn') for k in kinds))
+        # the burn fee may leave the supply through the bank or through the token factory; nothing else (no mint, no sub-call) belongs in a swap
+        I.check('only_transfers_and_burns', all(k in ('send', 'burn', 'tf_burn') for k in kinds))
     return s1
 
 
@@ -125,7 +126,7 @@ for _n, _rk in ((0, 'none'), (1, 'valid'), (0, 'invalid'), (2, 'none')):
                kind='S', tier='quick' if _n < 2 else 'thorough',
                statement='executed constant-product swap through the public Swap message: offer reserve += offer; ask reserve -= return+protocol+burn; '
                          'receiver (validated receiver or sender) gets gross - all fees; fee collector gets floor(gross*protocol); burn leaves supply; '
-                         'swap/extra fees stay; no other balance changes; only bank messages',
+                         'swap/extra fees stay; no other balance changes; only transfers and burns',
                bounds='reserves/offer [1,2^128), fees via real is_valid (%d extra), receiver %s; pool-manager balances >= reserves' % (_n, _rk),
                covers=['ok'], replay=_replay_s1(_n, _rk))(_ob_s1(_n, _rk))
 
